@@ -581,6 +581,7 @@ PROP = Prop(
         Layer("faults", stall_is_violation=True, cases=fault_cases, execute=execute_fault),
         Layer("invalid-requests", strategy=invalid_request_cases, execute=execute_invalid, budget={"quick": 300, "thorough": 3000}),
         Layer("atheris", cases=campaign_cases, execute=execute_campaign),
+        __import__("vf.props.real", fromlist=["layer_for"]).layer_for("C15", {"quick": 700, "thorough": 24000}),
     ],
     assumptions=["the replay peer sends its script whatever the client writes and releases the next round early rather than letting a read block, so a blocked "
                  "read after the script has ended is EOF; a hang is therefore a genuine non-termination",
